@@ -604,13 +604,15 @@ class SbcParser:
 
                 # Compute the frame length
                 frame_length = 4 + (4 * subbands * channels) // 8
+                # (the audio samples are padded to a whole number of octets)
                 if channel_mode in (SBC_MONO_CHANNEL_MODE, SBC_DUAL_CHANNEL_MODE):
-                    frame_length += (blocks * channels * bitpool) // 8
+                    frame_length += (blocks * channels * bitpool + 7) // 8
                 else:
                     frame_length += (
                         (1 if channel_mode == SBC_JOINT_STEREO_CHANNEL_MODE else 0)
                         * subbands
                         + blocks * bitpool
+                        + 7
                     ) // 8
 
                 # Read the rest of the frame
